@@ -125,6 +125,12 @@ def run(ctx):
             r = instances.make(rng, cls)
             if r is not None:
                 texts.append((cls, r[0]))
+    # every way in which binders can meet in a let, every run
+    for kind in ('parallel', 'nested', 'shadow', 'quant', 'plain2'):
+        for _ in range(3 if ctx.thorough else 1):
+            r = instances.make(rng, 'LetSubstitution', kind=kind)
+            if r is not None:
+                texts.append(('LetSubstitution', r[0]))
     queries, qmeta, tcalls = [], [], []
     for cls, text in texts:
         exprs = impl.parse(text)
